@@ -1,8 +1,10 @@
 (* allow-axioms:  *)
-From RRE Require Import Base.Sx Base.Float Model.Index Proofs.IndexProofs.
+From RRE Require Import Base.Sx Base.Float Model.Index Proofs.IndexProofs Proofs.IndexAlphaProofs.
 Open Scope Z_scope.
 From RRE Require Import Properties.C16.
 Check (C16_rendering_determines_equality : forall a a' b b',
   dbg_eqb a a' = true -> dbg_eqb b b' = true -> val_eqb a b = val_eqb a' b').
+Check (C16_alpha_filter_is_scan : forall ops, Forall aop_wf ops -> run_alpha alpha_init ops = spec_alpha [] ops).
+Check (C16_equal_values_share_a_key : forall a b, wfv a -> wfv b -> val_eqb a b = true -> key_eqb a b = true).
 Check (C16_memo_eq_direct : forall calls m, MemoInv m -> run_memo m calls = spec_memo calls).
 Check (C16_memo_eq_direct_from_empty : forall calls, run_memo [] calls = spec_memo calls).
